@@ -212,13 +212,38 @@ func packLenTerms(fn *ssa.Function) (terms []string, ok bool) {
 				return
 			}
 		case *ssa.Phi:
-			// len(Data) clamped to 65535
-			e := core.Expr(x)
-			if strings.Contains(e, "len(") && strings.Contains(e, "65535") {
-				i := strings.Index(e, "len(")
-				j := strings.Index(e[i:], ")")
-				terms = append(terms, "bytes:"+lastField(e[i+4:i+j]))
+			// len(Data) clamped to a constant: phi(len(x.f), K)
+			var fld string
+			consts, others := 0, 0
+			for _, e := range x.Edges {
+				if _, isC := core.ConstInt(e); isC {
+					consts++
+				} else if f, isLen := lenOfFieldCall(e); isLen {
+					fld = f
+				} else {
+					others++
+				}
+			}
+			if fld != "" && others == 0 && consts <= 1 {
+				terms = append(terms, "bytes:"+fld)
 				return
+			}
+		}
+		if call, isCall := v.(*ssa.Call); isCall {
+			if f, isLen := lenOfFieldCall(call); isLen {
+				terms = append(terms, "bytes:"+f)
+				return
+			}
+			// min(len(x.f), K)
+			if bi, isB := call.Call.Value.(*ssa.Builtin); isB && bi.Name() == "min" && len(call.Call.Args) == 2 {
+				for i, a := range call.Call.Args {
+					if f, isLen := lenOfFieldCall(a); isLen {
+						if _, isC := core.ConstInt(call.Call.Args[1-i]); isC {
+							terms = append(terms, "bytes:"+f)
+							return
+						}
+					}
+				}
 			}
 		}
 		ok = false
@@ -227,6 +252,27 @@ func packLenTerms(fn *ssa.Function) (terms []string, ok bool) {
 	walk(rets[0].Results[0])
 	sort.Strings(terms)
 	return
+}
+
+// lenOfFieldCall: v is len(x.f) for a field f; returns the field name.
+func lenOfFieldCall(v ssa.Value) (string, bool) {
+	call, ok := v.(*ssa.Call)
+	if !ok {
+		return "", false
+	}
+	bi, ok := call.Call.Value.(*ssa.Builtin)
+	if !ok || bi.Name() != "len" {
+		return "", false
+	}
+	switch a := call.Call.Args[0].(type) {
+	case *ssa.UnOp:
+		if fa, ok := a.X.(*ssa.FieldAddr); ok {
+			return core.FieldAddrRef(fa).Name, true
+		}
+	case *ssa.Field:
+		return core.FieldValRef(a).Name, true
+	}
+	return "", false
 }
 
 func sigSizeTerms(sig []wireElem) []string {
@@ -496,35 +542,38 @@ func r02c(c *core.Ctx) {
 	// unpackResource: constructor per type constant
 	ctor := map[int64]string{} // wire type -> constructor name
 	var def string
-	for _, call := range core.Calls(ur) {
-		callee := core.StaticCallee(call)
-		if callee == nil || !strings.HasPrefix(callee.Name(), "New") {
-			continue
-		}
-		var ks []int64
-		// type comparisons true on the way here (direct edge) or first reached
-		for _, b := range ur.Blocks {
-			iff, ok := b.Instrs[len(b.Instrs)-1].(*ssa.If)
-			if !ok {
+	// the constructor selection may live in unpackResource or in a helper it calls
+	for _, hf := range helperReach(ur, 1) {
+		for _, call := range core.Calls(hf) {
+			callee := core.StaticCallee(call)
+			if callee == nil || !strings.HasPrefix(callee.Name(), "New") || callee.Signature.Params().Len() != 0 {
 				continue
 			}
-			bo, ok := iff.Cond.(*ssa.BinOp)
-			if !ok || bo.Op != token.EQL || !strings.HasSuffix(core.Expr(bo.X), ".Type") {
-				continue
+			var ks []int64
+			// type comparisons true on the way here (direct edge)
+			for _, b := range hf.Blocks {
+				iff, ok := b.Instrs[len(b.Instrs)-1].(*ssa.If)
+				if !ok {
+					continue
+				}
+				bo, ok := iff.Cond.(*ssa.BinOp)
+				if !ok || bo.Op != token.EQL || core.TypeName(bo.X.Type()) != core.PkgPath(dpkg)+".Type" {
+					continue
+				}
+				k, isC := core.ConstInt(bo.Y)
+				if !isC {
+					continue
+				}
+				if b.Succs[0] == call.Block() {
+					ks = append(ks, k)
+				}
 			}
-			k, isC := core.ConstInt(bo.Y)
-			if !isC {
-				continue
+			if len(ks) == 0 {
+				def = callee.Name()
 			}
-			if b.Succs[0] == call.Block() {
-				ks = append(ks, k)
+			for _, k := range ks {
+				ctor[k] = callee.Name()
 			}
-		}
-		if len(ks) == 0 {
-			def = callee.Name()
-		}
-		for _, k := range ks {
-			ctor[k] = callee.Name()
 		}
 	}
 	want := map[int64]string{1: "NewA", 28: "NewAAAA", 15: "NewMX", 5: "NewNAME", 2: "NewNAME", 12: "NewNAME", 6: "NewSOA", 33: "NewSRV"}
